@@ -97,7 +97,13 @@ fn dg_strategy() -> BoxedStrategy<Dg> {
 type In = (Vec<Op>, Vec<Dg>, bool);
 
 fn strategy(_t: Tier) -> BoxedStrategy<In> {
-    (vec(op_strategy(), 0..8), vec(dg_strategy(), 1..20), any::<bool>())
+    // the store holds the colliding records of C13 and arbitrary records of every type (hostile names included)
+    let any_op = prop_oneof![
+        6 => op_strategy(),
+        2 => gen::arecord().prop_map(Op::AddAuth),
+        1 => gen::arecord().prop_map(Op::AddCached),
+    ];
+    (vec(any_op, 0..8), vec(dg_strategy(), 1..20), any::<bool>())
         .prop_map(|(ops, mut dgs, ch)| {
             // queries for the store ask for names its history mentions (owners, also of removed records, and targets)
             let mentioned: Vec<AName> = ops
@@ -150,6 +156,11 @@ pub fn handle_datagram(
             let reply = lib("responder: build_reply", || build_reply(packet, &guard).map(|(p, u)| (p.build_bytes_vec_compressed(), u)))?;
             if let Some((Ok(bytes), _)) = reply {
                 case.class("reply-sent");
+                if let Ok(w) = walk(&bytes) {
+                    if w.records.iter().any(|r| ![1u16, 12, 16, 28, 33].contains(&r.rtype)) {
+                        case.class("reply-with-other-record-types");
+                    }
+                }
                 let ok = lib("reply: Packet::parse", || Packet::parse(&bytes).is_ok())?;
                 ensure!(ok, "c14:reply-unparseable", "the responder's reply is not a parseable DNS message: {}", hex(&bytes[..bytes.len().min(160)]));
             }
